@@ -784,6 +784,7 @@ pub enum Mutation {
     WrongBranch,
     WrongOperand,
     WrongElement,
+    DropDimBound,
 }
 
 impl Mutation {
@@ -795,15 +796,17 @@ impl Mutation {
             Mutation::WrongBranch => "wrong_branch",
             Mutation::WrongOperand => "wrong_operand",
             Mutation::WrongElement => "wrong_element",
+            Mutation::DropDimBound => "drop_dim_bound",
         }
     }
-    pub const ALL: [Mutation; 6] = [
+    pub const ALL: [Mutation; 7] = [
         Mutation::SwapUnit,
         Mutation::WrongAnnotation,
         Mutation::WrongArgument,
         Mutation::WrongBranch,
         Mutation::WrongOperand,
         Mutation::WrongElement,
+        Mutation::DropDimBound,
     ];
 }
 
@@ -839,9 +842,86 @@ pub fn mutate(rng: &mut Rng, p: &Prog, m: Mutation) -> Option<Prog> {
             Mutation::WrongBranch => matches!(e, E::If(..)),
             Mutation::WrongOperand => matches!(e, E::Bin(Op::Add | Op::Sub | Op::Conv, _, _) | E::Cmp(..)),
             Mutation::WrongElement => matches!(e, E::List(xs) if xs.len() >= 2),
-            Mutation::WrongAnnotation => false,
+            Mutation::WrongAnnotation | Mutation::DropDimBound => false,
         }
     };
+    if m == Mutation::DropDimBound {
+        // an annotated generic function loses the `Dim` bound of one type parameter (the parameter is renamed
+        // D… -> U…; see ast::is_unbounded_tpar). Only parameters that occur bare in the annotations qualify.
+        fn bare_only(a: &Ann, t: &str) -> bool {
+            match a {
+                Ann::D(DX::Name(_)) => true,
+                Ann::D(d) => !dx_mentions(d, t),
+                Ann::List(x) => bare_only(x, t),
+                Ann::Bool => true,
+            }
+        }
+        fn dx_mentions(d: &DX, t: &str) -> bool {
+            match d {
+                DX::One => false,
+                DX::Name(n) => n == t,
+                DX::Mul(a, b) | DX::Div(a, b) => dx_mentions(a, t) || dx_mentions(b, t),
+                DX::Pow(a, _) => dx_mentions(a, t),
+            }
+        }
+        fn rename_dx(d: &mut DX, from: &str, to: &str) {
+            match d {
+                DX::One => {}
+                DX::Name(n) => {
+                    if n == from {
+                        *n = to.to_string();
+                    }
+                }
+                DX::Mul(a, b) | DX::Div(a, b) => {
+                    rename_dx(a, from, to);
+                    rename_dx(b, from, to);
+                }
+                DX::Pow(a, _) => rename_dx(a, from, to),
+            }
+        }
+        fn rename_ann(a: &mut Ann, from: &str, to: &str) {
+            match a {
+                Ann::D(d) => rename_dx(d, from, to),
+                Ann::List(x) => rename_ann(x, from, to),
+                Ann::Bool => {}
+            }
+        }
+        let mut sites: Vec<(usize, String)> = Vec::new();
+        for (i, s) in q.iter().enumerate() {
+            if let S::Fn { tpars, params, ret, .. } = s {
+                for t in tpars {
+                    if is_unbounded_tpar(t) {
+                        continue;
+                    }
+                    let anns: Vec<&Ann> = params.iter().filter_map(|(_, a)| a.as_ref()).chain(ret.iter()).collect();
+                    if anns.iter().all(|a| bare_only(a, t)) {
+                        sites.push((i, t.clone()));
+                    }
+                }
+            }
+        }
+        if sites.is_empty() {
+            return None;
+        }
+        let (i, t) = rng.pick(&sites).clone();
+        let to = format!("U{}", &t[1..]);
+        if let S::Fn { tpars, params, ret, .. } = &mut q[i] {
+            for x in tpars.iter_mut() {
+                if *x == t {
+                    *x = to.clone();
+                }
+            }
+            for (_, a) in params.iter_mut() {
+                if let Some(a) = a {
+                    rename_ann(a, &t, &to);
+                }
+            }
+            if let Some(a) = ret {
+                rename_ann(a, &t, &to);
+            }
+        }
+        return Some(q);
+    }
     if m == Mutation::WrongAnnotation {
         let mut sites: Vec<(usize, usize)> = Vec::new(); // (stmt, which)
         for (i, s) in q.iter().enumerate() {
